@@ -303,7 +303,7 @@ impl Prop for C08 {
             level: "exploration",
             rule: "exhaustive product of ground-truth traces: 1..2 (thorough 3) ECUs x 1..3 boots each x per boot {8 timestamp profiles (1-3 messages, timestamps from {0,0.5,3,12,70} s) x delay {0,2,20} s x every permutation of the messages} x off-time {1 ms,5,15,100 s} x every interleaving of the ECUs' streams; reception = boot + timestamp + delay. Candidates whose boots overlap in reception time are classified as outside the premise and counted, not judged. Oracle: one lifecycle per boot, every message in its boot's lifecycle, start = boot+delay, end = start+max timestamp, nr_msgs. Cases where a later boot's calculated start is not after the previous boot's calculated end (delay dropped by more than the off-time) carry the discriminator delay_drop_gt_offtime. Non-trivial = >= 2 boots.".into(),
             assumptions: vec!["timestamps, delays and off-times from the stated grids".into()],
-            budget_s: (40, 1200),
+            budget_s: (90, 1200),
             workers: 0,
             required_landmarks: vec!["two_ecus", "multi_boot", "permuted_within_boot", "resume_flagged(allowed)"],
         }
